@@ -38,11 +38,13 @@ theorem chan_delete_callback_is_delete_by_name :
       ["assign deleteCallback := func(c *Channel) { t.DeleteExistingChannel(c.name) }"] := by decide
 
 /-- `--sync-every` reaches `diskqueue.New` as given (`Tie.Restart.diskqueue_record_bounds` pins the argument
-lists): either `nsqd.New` does not look at it — then `0` is a legal configuration in which a deleted
-topic/channel leaves its `.diskqueue.meta.dat` (replay `sync_every_zero_delete`, E9's `CfgOk.sync` violated) —
-or it refuses values below 1 (fixes/F25) and `CfgOk.sync` holds for every queue nsqd opens -/
-theorem sync_every_validation_shape :
-    Nsq.Gen.Life.syncEveryGuard = [] ∨ Nsq.Gen.Life.syncEveryGuard = ["if opts.SyncEvery < 1"] := by decide
+lists) and `nsqd.New` does not look at it: `0` is a legal configuration in which a deleted topic/channel leaves its
+`.diskqueue.meta.dat` (open finding `sync-every-zero-delete-leaves-meta-file`, replay `sync_every_zero_delete`; E9's
+`CfgOk.sync` is an assumption on the configuration). fixes/F25 (refuse values below 1: guard `if opts.SyncEvery < 1`) is
+NOT committed and stays a proposal — the integrator keeps the finding open because refusing a value nsqd has always
+accepted is a maintainer decision. Only the committed shape is accepted (audit B12); applying F25 breaks this tie and
+the text has to be revisited. -/
+theorem sync_every_validation_shape : Nsq.Gen.Life.syncEveryGuard = [] := by decide
 
 /-- the model instance the current tree selects -/
 def treeModel : Nsq.Model.ChanDelete.CSt :=
